@@ -73,6 +73,34 @@ pub fn gen(out: &mut Out, thorough: bool) {
     for (a, b) in [("{k61;{k61;#31;k61;#32;}}", "{k61;{k61;#32;k61;#31;}}"), ("[{k61;n,k62;t}]", "[{k62;t,k61;n}]"), ("[n,t]", "[t,n]"), ("{k61;[n,t]}", "{k61;[t,n]}")] {
         if parse_value(a).is_some() && parse_value(b).is_some() { l(format!("ueq {} {}", a, b), out); }
     }
+    // many entries under one key (and a few other keys), values from a pool with nested objects and
+    // arrays of objects: deep shuffles must stay equal whatever the number of duplicates, a single
+    // mutation must not
+    {
+        let pool = ["n", "t", "#31;", "#32;", "s61;", "{k78;#31;k79;#32;}", "{k78;#35;}", "{k79;#32;k78;#31;k7a;n}", "[{k78;#31;k79;#32;}]", "[{k78;#35;}n]", "{k78;{k61;t k62;f}k79;[]}", "[]", "{}"];
+        let sizes: &[usize] = if thorough { &[2, 5, 11, 12, 13, 14, 15, 16, 20, 31, 32, 33, 40, 65, 130] } else { &[5, 12, 13, 14, 15, 20, 33, 65] };
+        let reps = if thorough { 40 } else { 8 };
+        let mut n = 0u64;
+        for &sz in sizes {
+            for r in 0..reps {
+                let mut o = Object::new();
+                for i in 0..sz {
+                    let key = if (i + r) % 6 == 5 { "z" } else if (i + r) % 11 == 7 { "" } else { "k" };
+                    let v = parse_value(&pool[out.rng.below(pool.len() as u64) as usize].replace(' ', "")).unwrap_or(Value::Null);
+                    o.push(key.into(), v);
+                }
+                let v = if r % 3 == 2 { Value::Array(vec![Value::Object(o), Value::Null]) } else { Value::Object(o) };
+                let sh = shuffle_deep(&mut out.rng, &v);
+                l(format!("ueq {} {}", show_value(&v), show_value(&sh)), out);
+                l(format!("ueq {} {}", show_value(&sh), show_value(&v)), out);
+                let mu = crate::ord::mutate(&mut out.rng, &sh);
+                l(format!("ueq {} {}", show_value(&v), show_value(&mu)), out);
+                n += 3;
+            }
+        }
+        out.count_n("wide_duplicate_objects", n);
+        out.exhaustive.push(format!("objects with {:?} entries mostly under ONE key, values from a pool with nested objects / arrays of objects: deep shuffle (both directions) and one mutation", sizes));
+    }
     // random large values: shuffles must be equal, single-leaf mutations must differ
     let m = if thorough { 300000 } else { 3000 };
     for _ in 0..m {
